@@ -19,6 +19,16 @@ CHECKS = {
             "xdsl 0.70.0 + import shim trusted; divisors concrete; StridePattern bounds enumerated 0..3/0..5; "
             "print->parse is representative-based, not for-all.",
             "symbolic execution of the real Python (int proxies) + z3 unsat queries per path", "3/C19"),
+    "C10": (OT,
+            "The real TSL classes run on z3 int proxies (symbolic steps, offsets, starting stride, indices, run-time "
+            "sizes; tile bounds enumerated because they become divisors). Affine map, canonical form, from_strides, "
+            "common contiguous block, the IR emitted by get_bound_ops/get_step_ops and the subview pointer IR of "
+            "convert-memref-to-arith (executed by the symbolic IR interpreter) are each proved equal to one reference "
+            "function Lambda(x)=sum digit*step by unsat queries. numpy enumeration views and print/parse are compared "
+            "with the solver on concrete/representative layouts only.",
+            "offset is carried separately from Lambda by every view; dynamic sizes multiples of inner tiles; "
+            "tile-aligned subview offsets; mathematical-int index arithmetic (no overflow) for emitted IR.",
+            "symbolic execution of the real Python + symbolic IR interpreter + z3 unsat queries", "3/C10"),
 }
 
 NOT_YET = "check not built yet (work in progress in this round); no claim is made"
